@@ -1,12 +1,14 @@
 package checks
 
 import (
+	"errors"
 	"fmt"
 	"math"
 	"strconv"
 	"strings"
 	"testing"
 
+	"github.com/cybergarage/go-redis/redis"
 	"verif/sim/resp"
 	"verif/sim/sim"
 	"verif/sim/wl"
@@ -207,13 +209,48 @@ func witnessScript(t *sim.Tape, n int) ([][]byte, []resp.Value) {
 func runC07(t *testing.T, tape *sim.Tape, tier string) *Outcome {
 	o := &Outcome{}
 	cl := newCluster(tape, o)
-	useExample := tape.Draw(2, "store") == 0
-	if useExample {
+	storeKind := tape.Draw(3, "store")
+	useExample := storeKind == 0
+	switch storeKind {
+	case 0:
 		cl.useExample()
 		o.stat("runs_example_store", 1)
-	} else {
+	case 1:
 		cl.useServer(wl.NewRefStore())
 		o.stat("runs_reference_store", 1)
+	default:
+		// a handler that never panics but misbehaves for the offenders' keys: nil results, errors, oddly typed replies
+		rs := wl.NewRefStore()
+		plan := make([]int, 64)
+		for i := range plan {
+			plan[i] = tape.Draw(8, "misbehave")
+		}
+		n := 0
+		rs.Fault = func(conn *redis.Conn, method, key string) (*redis.Message, error, bool) {
+			if !strings.HasPrefix(key, "o") {
+				return nil, nil, false
+			}
+			k := plan[n%len(plan)]
+			n++
+			cl.S.Count("handler_misbehaviour_injected")
+			switch k {
+			case 0:
+				return nil, nil, true
+			case 1:
+				return nil, errors.New("handler failure\r\n+OK"), true
+			case 2:
+				return redis.NewArrayMessage(), nil, true
+			case 3:
+				return redis.NewStringMessage("weird"), nil, true
+			case 4:
+				return redis.NewNilMessage(), nil, true
+			case 5:
+				return redis.NewIntegerMessage(7), nil, true
+			}
+			return nil, nil, false
+		}
+		cl.useServer(rs)
+		o.stat("runs_misbehaving_handler", 1)
 	}
 	cl.Sticky = tape.Draw(4, "sticky")
 	if err := cl.startServer(); err != nil {
@@ -305,7 +342,7 @@ func runC07(t *testing.T, tape *sim.Tape, tier string) *Outcome {
 	cl.finish()
 	o.Sched = fmt.Sprintf("ex%t n%d st%d|%d|%x", useExample, noff, cl.Sticky, o.Steps, hash64(strings.Join(o.Log, "\n")))
 	o.Nontrivial = true
-	o.Sample = map[string]any{"store": map[bool]string{true: "bundled example store", false: "reference store"}[useExample], "offenders": descs, "witness_requests": len(wItems), "steps": o.Steps}
+	o.Sample = map[string]any{"store": []string{"bundled example store", "reference store", "reference store misbehaving (nil/error/odd replies) for the offenders' keys"}[storeKind], "offenders": descs, "witness_requests": len(wItems), "steps": o.Steps}
 	return o
 }
 
@@ -313,7 +350,7 @@ func init() {
 	register(&Check{
 		ID: "C07", Bubble: true, Run: runC07,
 		Runs:   map[string]int{"quick": 20000, "thorough": 600000},
-		Rule:   "a case is one run of the full server (Start, accept loop, connection goroutines) with 1..3 offender connections (boundary-argument commands on a small key pool, ill-formed and unknown commands, odd/null/nested arrays, malformed frames; ended by idle/half-close/close/reset at a drawn byte), one lock-step witness with exact expected replies and one late-comer, under a seeded interleaving of all deliveries and server goroutines; handler = bundled example store or reference store; distinct = distinct event-log hashes; every run has an offender, so all are non-trivial",
+		Rule:   "a case is one run of the full server (Start, accept loop, connection goroutines) with 1..3 offender connections (boundary-argument commands on a small key pool, ill-formed and unknown commands, odd/null/nested arrays, malformed frames; ended by idle/half-close/close/reset at a drawn byte), one lock-step witness with exact expected replies and one late-comer, under a seeded interleaving of all deliveries and server goroutines; handler = bundled example store, reference store, or a non-panicking but misbehaving store (nil results, errors, oddly typed replies for the offenders' keys); distinct = distinct event-log hashes; every run has an offender, so all are non-trivial",
 		Real:   []string{"redis.Server Start/accept loop/connection goroutines/dispatch/executors/parser", "examples/go-redisd/server store (half of the runs)"},
 		Stub:   []string{"network: simulated listener and connections", "handler (other half): reference store", "process isolation: one worker process per shard, a worker death is attributed to its run and replayed alone"},
 		Assume: []string{"the witness uses its own keys and database so that its expected replies do not depend on the offenders"},
